@@ -31,8 +31,8 @@ theorem tie_psbSignBIOS : psbSignBIOS = AmdPsb.PSBSignBIOS := by decide
 
 /-- the six anchor addresses, in probe order (the only integer list of FindEmbeddedFirmwareStructure) -/
 theorem tie_anchors : AmdManifest.efs_anchor_lists = [efsAnchors] := by decide
-/-- the probe reads a 4-byte signature: the only literal arithmetic of the loop is `offset+4` -/
-theorem tie_probe_ops : AmdManifest.litops_FindEmbeddedFirmwareStructure = ["+4"] := by decide
+/-- the probe reads a 4-byte signature: the literal arithmetic of the loop is `offset+4` and the comparison with the signature constant 0x55AA55AA -/
+theorem tie_probe_ops : AmdManifest.litops_FindEmbeddedFirmwareStructure = ["+4", "==1437226410"] := by decide
 
 /-! ### layouts (encoding/binary, packed, declaration order) -/
 theorem tie_layout_EFS : AmdManifest.layout_EmbeddedFirmwareStructure =
@@ -84,9 +84,11 @@ theorem tie_ops_PSPEntry : AmdManifest.litops_ParsePSPDirectoryTableEntry = ["&3
 /-- `biosResetImage … biosRomId`: `&0x1`, `>>1 &1`, `>>2 &1`, `>>3 &1`, `>>4`; `&7`, `>>3 &3` -/
 theorem tie_ops_BIOSEntry : AmdManifest.litops_ParseBIOSDirectoryTableEntry =
     ["!=0", "!=0", "!=0", "!=0", "&1", "&1", "&1", "&1", "&3", "&7", ">>1", ">>2", ">>3", ">>3", ">>4"] := by decide
-/-- `fletcherCRC32`: 360-word blocks, modulus 65535, rounding to even, word assembly, result -/
+/-- `fletcherCRC32`: 720-byte (360-word) blocks, modulus 65535, rounding to even, word assembly, index and
+    block-length steps, result. The inventory is in the translator's normal form (constants folded, named constants
+    resolved, `x op= c` and `x++` counted like `x = x op c`), so value-preserving rewrites leave it unchanged. -/
 theorem tie_ops_fletcher : AmdManifest.litops_fletcherCRC32 =
-    ["%65535", "%65535", "&-2", "+1", "360*2", "360*2", "<<16", "<<8", "==0", ">0"] := by decide
+    ["%65535", "%65535", "&-2", "+1", "+1", "+1", "-2", "<<16", "<<8", "==0", ">0", ">720"] := by decide
 /-- repaired `parsePlatformBinding`: `&0xF`, `>>4` (`keyRevision`, `platformModel`) -/
 theorem tie_ops_platformBinding : AmdPsb.litops_parsePlatformBinding = ["&15", ">>4"] := by decide
 /-- repaired `parseSecurityFeatureVector`: `&1`, `>>1 &1`, `>>2 &1` -/
